@@ -140,7 +140,7 @@ func VerifC13Sliced() {
 	zz.ClockAuto(true)
 	zz.ClockStepMax(1000000)
 	now := zz.ClockRead()
-	conf := config.Sweeper{Enabled: true, RetentionDays: zz.RetentionDays(), LockDuration: time.Nanosecond, ReleaseDuration: time.Nanosecond}
+	conf := config.Sweeper{Enabled: true, RetentionDays: zz.RetentionDays(), LockDuration: time.Nanosecond, ReleaseDuration: 2 * time.Millisecond}
 	sw := New("db", conf, env, lg, true)
 	r := int64(conf.RetentionDuration())
 	zz.Assume(zz.And(r > 3600000000000, r < 1<<50))
@@ -195,7 +195,43 @@ func VerifC13Sliced() {
 		zz.Assert(false, "harness/setup")
 		return
 	}
+	// natively an application keeps committing to a DBI of its own while the pass runs (between
+	// the slices it gets the write lock); under the engine goroutines of non-thread harnesses
+	// are not run, the model instead enforces the lifetime of memory read in a transaction
+	stop := make(chan struct{})
+	done := make(chan struct{})
+	if !zz.Symbolic() {
+		go func() {
+			defer close(done)
+			for i := 0; ; i++ {
+				select {
+				case <-stop:
+					return
+				default:
+				}
+				_ = env.Update(func(txn *lmdb.Txn) error {
+					app, err := txn.OpenDBI("zz-app", lmdb.Create)
+					if err != nil {
+						return err
+					}
+					for j := 0; j < 20; j++ {
+						k := []byte{'w', byte('a' + (i+j)%26), byte('a' + j)}
+						if (i+j)%3 == 0 {
+							_ = txn.Del(app, k, nil)
+						} else if err := txn.Put(app, k, vStored(young, 0, 0, bytes.Repeat([]byte("w"), 40+j)), 0); err != nil {
+							return err
+						}
+					}
+					return nil
+				})
+			}
+		}()
+	}
 	serr := sw.sweep(context.Background())
+	close(stop)
+	if !zz.Symbolic() {
+		<-done
+	}
 	zz.Assert(serr == nil, "C13/sliced/no-error")
 	if sw.lastStats.nTxn > 2 {
 		zz.Reach("C13/sliced/pass-was-chopped")
